@@ -271,6 +271,14 @@ def run_malformed_unit(ex, H, unit, res):
                 wellformed = b_and(ex.binop('Eq', lenf, U16(n), False), ex.binop('Eq', raw[6], Int(8, 0), False), ex.binop('Eq', raw[7], Int(8, 0), False))
             else:
                 wellformed = False
+        elif layer in ('dhcp-client', 'dhcp-server'):
+            # a truncated DHCP message (shorter than the fixed part + two terminators) can never decode: the application-layer demux
+            # must report an error, not crash
+            who = {'p': Agg('DhcpClient' if layer == 'dhcp-client' else 'DhcpServer', {0: Opaque('field0'), 1: Opaque('field1'), 2: Opaque('field2')})}
+            before = after = 0
+            r = ex.call('<DhcpClient as Protocol>::demux' if layer == 'dhcp-client' else '<DhcpServer as Protocol>::demux',
+                        [Ref(who, 'p'), msg, caller, ch['c'], clone_val(machine)])
+            wellformed = False
         else:
             ip = {'i': Agg('Ipv4', {0: MapV('DashMap', []), 1: MapV('HashMap', [])})}
             before = 0
@@ -325,6 +333,7 @@ def run_malformed_unit(ex, H, unit, res):
 def malformed_units(tier):
     us = [{'layer': 'udp', 'nbytes': n} for n in ((0, 7, 8, 10) if tier == 'quick' else (0, 1, 4, 7, 8, 9, 12))]
     us += [{'layer': 'ipv4', 'nbytes': n} for n in ((0, 19, 20, 22) if tier == 'quick' else (0, 1, 10, 19, 20, 21, 24))]
+    us += [{'layer': l, 'nbytes': n} for l in ('dhcp-client', 'dhcp-server') for n in ((0, 31) if tier == 'quick' else (0, 1, 16, 30, 31))]
     return us
 
 
@@ -345,7 +354,14 @@ def worker(args):
         _W['l'] = loader.load()
         _W['H'] = Hdr(_W['l'][2])
     fns, enums, src = _W['l']
+    extra = None
+    if unit.get('layer') == 'dhcp-server':
+        if 's' not in _W:
+            _W['s'] = loader.load_shim(['applications/dhcp_server.rs', 'ip_generator.rs'], name='shim-dhcp')
+        fns, enums, src, extra = _W['s']
     ex = loader.new_exec(fns, enums, src, message_model=False)
+    if extra:
+        ex.extra_roots = [extra]
     install_env(ex)
     res = {'unit': dict(unit), 'paths': 0, 'obligations': 0, 'violations': [], 'samples': [], 'unsupported': []}
     t0 = time.time()
